@@ -121,7 +121,7 @@ def state_fn(conf, hist, G, M):
     nodes, times, P, PP = oracles.presence_ctx(G, conf)
     trip = []
     evals = 0
-    for id_key in ('id', 'name'):
+    for id_key in ('id', 'name', 'id'):        # the default form once more after the custom one (no carried-over defaults)
         r, n = check_json(conf, G, nodes, times, P, PP, id_key)
         trip += r
         evals += n
